@@ -54,16 +54,19 @@ def sqBody (ind : Bytes) : Bool → Bytes → Bytes
 def flagSingleLine (flags : Nat) : Bool := flags &&& LYS_YPR_TEXT_SINGLELINE != 0
 def flagSingleQuoted (flags : Nat) : Bool := flags &&& LYS_YPR_TEXT_SINGLEQUOTED != 0
 
-/-- `ypr_text(pctx, name, text, flags)`: everything it prints (up to and including the closing quote) -/
-def printText (fmt : Bool) (level flags : Nat) (name text : Bytes) : Bytes :=
+/-- `ypr_text`: what it prints after the statement name — separator, opening quote, text, closing quote -/
+def printTextArg (fmt : Bool) (level flags : Nat) (text : Bytes) : Bytes :=
   let sq := flagSingleQuoted flags
   let single := flagSingleLine flags && !(sq && text.contains 39)
   let quot : UInt8 := if sq then 39 else 34
   let lvl := if single then level else incLevel level
   let ind := indentOf fmt lvl
-  let head := if single then indentOf fmt level ++ name ++ [32, quot]
-              else indentOf fmt level ++ name ++ 10 :: (ind ++ [quot])
-  head ++ (if sq then sqBody ind false text else dqBody ind text) ++ [quot]
+  (if single then [32, quot] else 10 :: (ind ++ [quot])) ++
+    ((if sq then sqBody ind false text else dqBody ind text) ++ [quot])
+
+/-- `ypr_text(pctx, name, text, flags)`: everything it prints (up to and including the closing quote) -/
+def printText (fmt : Bool) (level flags : Nat) (name text : Bytes) : Bytes :=
+  indentOf fmt level ++ name ++ printTextArg fmt level flags text
 
 /-- `struct lysp_stmt`: keyword text, optional argument, quoting flags of the argument, children -/
 inductive Stmt where
